@@ -19,13 +19,13 @@ use smartcore::verif::{set_step_budget, steps, svc_force_orders, svc_take_order_
 type DM = DenseMatrix<f64>;
 
 /// Logical step budgets (one step = one SMO iteration).
-/// SVC: the worst fit seen on the unchanged tree used 316 steps (evidence: `steps/budget:svc`).
+/// SVC: the worst of 14 million fits on the unchanged tree used 1506 steps (evidence: `steps/budget:svc`).
 const SVC_BUDGET: u64 = 1_000_000;
 const ENUM_BUDGET: u64 = 1_000_000;
 /// SVR: the number of SMO iterations grows with H = C·max_i K(x_i,x_i)/tol; on 60 000 fits of the
 /// unchanged tree the worst observed steps/H was 4.0 (H from 1 to 1e11, every fit terminated, the slowest
-/// after 1.7e8 steps; tail of steps/H: 99.9 % below 0.9, 99.99 % below 2.7). The budget of a fit is SVR_HEADROOM·H (at least SVR_MIN_BUDGET); where that
-/// exceeds SVR_CAP the fit runs under SVR_CAP and an overrun is *skipped* (slow convergence cannot be
+/// after 1.7e8 steps; tail of steps/H: 99.9 % below 0.9, 99.99 % below 2.7). The budget of a fit is
+/// SVR_HEADROOM·H (at least SVR_MIN_BUDGET); where that exceeds SVR_CAP the fit runs under SVR_CAP and an overrun is *skipped* (slow convergence cannot be
 /// told from non-termination within an affordable budget), otherwise an overrun is a violation.
 const SVR_HEADROOM: f64 = 200.0;
 const SVR_MIN_BUDGET: u64 = 100_000;
@@ -1100,24 +1100,24 @@ fn main() {
         assumptions: vec![
             "f64 and DenseMatrix only (backend equivalence is C20)",
             "SVC schedules are forced through the verif hook (replayable); the unforced path is exercised by svc_unforced whose schedule is recorded but cannot be replayed bit-for-bit",
-            "non-termination is restated as a logical step budget. SVC: 1e6 reprocess steps per fit (worst fit on the unchanged tree: 316). SVR: 200·C·max_i K(x_i,x_i)/tol steps (>= 1e5; worst observed steps/(C·maxK/tol) on 60 000 fits: 4.0); where that exceeds 5e6 the fit runs under a 5e6 cap and an overrun is skipped, not reported (all such fits of the unchanged tree terminate when given up to 1.7e8 steps)",
+            "non-termination is restated as a logical step budget. SVC: 1e6 reprocess steps per fit (worst fit on the unchanged tree: 1506). SVR: 200·C·max_i K(x_i,x_i)/tol steps (>= 1e5; worst observed steps/(C·maxK/tol) on 60 000 fits: 4.0); where that exceeds 5e6 the fit runs under a 5e6 cap and an overrun is skipped, not reported (all such fits of the unchanged tree terminate when given up to 1.7e8 steps)",
             "SVR KKT slack = 1.0*tol (theoretical bound of the stopping rule: tol/2) + 1e-9*(max|y| + eps + |b| + max_x Σ|w_i K(sv_i,x)|); weights within 1e-12*C of ±C are treated as 'at bound' (the weaker condition)",
             "SVR optimality and termination are only demanded for PSD kernels; for the others a budget overrun is counted as skipped",
             "support vectors are matched to training rows by exact equality; with duplicate rows any assignment that satisfies the conditions is accepted",
             "kernel closed forms: |K - ref| <= 1e-12 * first-order error scale of the closed form (Σ|a_i b_i| for the inner product propagated through the outer function)",
         ],
         families: vec![
-            Family::new("svc", 8000, 120000, svc),
-            Family::new("svc_unforced", 1000, 15000, svc_unforced),
+            Family::new("svc", 8000, 300000, svc),
+            Family::new("svc_unforced", 1000, 30000, svc_unforced),
             Family::new("svc_enum_n4_e1", f4 * f4, f4 * f4, svc_enum_n4_e1).exhaustive(true, true),
             Family::new("svc_enum_n4_e2", f4 * f4 * f4, f4 * f4 * f4, svc_enum_n4_e2).exhaustive(true, true),
             Family::new("svc_enum_n5_e1", f5 * f5, f5 * f5, svc_enum_n5_e1).exhaustive(true, true),
             Family::new("svc_enum_n5_e2", 4000, f5 * f5 * f5, svc_enum_n5_e2).exhaustive(false, true),
             Family::new("svc_enum_n6_e1", 4000, f6 * f6, svc_enum_n6_e1).exhaustive(false, true),
-            Family::new("svr", 3000, 60000, svr),
-            Family::new("svr_not_psd", 400, 6000, svr_not_psd),
-            Family::new("kernels", 3000, 40000, kernels),
-            Family::new("gram", 1500, 20000, gram),
+            Family::new("svr", 3000, 150000, svr),
+            Family::new("svr_not_psd", 400, 10000, svr_not_psd),
+            Family::new("kernels", 3000, 80000, kernels),
+            Family::new("gram", 1500, 30000, gram),
         ],
         min_nontrivial: 6000,
         case_timeout_s: 120,
